@@ -687,7 +687,8 @@ func negOp(op token.Token) token.Token {
 }
 
 // tarsFact: `status == PACKAGE_FULL(2)` where (n, status) = TarsRequest(s)  =>  len(s) - n >= 0.
-// Contract read from TarsGo/tars/protocol: PACKAGE_FULL is returned only when len(rev) >= the announced length n.
+// Contract read from TarsGo/tars/protocol: PACKAGE_FULL is returned only when len(rev) >= the announced length n;
+// `status == PACKAGE_ERROR(2)`  =>  len(s) - 4 >= 0 (the prefix was read).
 func (ba *BA) tarsFact(bo *ssa.BinOp, isTrue bool) *Lin {
 	var ex *ssa.Extract
 	var k ssa.Value
@@ -704,11 +705,16 @@ func (ba *BA) tarsFact(bo *ssa.BinOp, isTrue bool) *Lin {
 		return nil
 	}
 	n, isC := constInt(k)
-	if !isC || n != 1 { // PACKAGE_FULL == 1 (PACKAGE_LESS = iota)
+	if !isC || (n != 1 && n != 2) { // PACKAGE_LESS = iota, PACKAGE_FULL == 1, PACKAGE_ERROR == 2
 		return nil
 	}
 	if !((bo.Op == token.EQL && isTrue) || (bo.Op == token.NEQ && !isTrue)) {
 		return nil
+	}
+	if n == 2 {
+		// PACKAGE_ERROR is answered only after the 4 byte prefix was read (TarsRequest returns PACKAGE_LESS below 4 bytes)
+		f := ba.lenOf(call.Common().Args[0]).add(linConst(4), -1)
+		return &f
 	}
 	// find Extract #0
 	var n0 ssa.Value
